@@ -389,12 +389,11 @@ class UBXReader:
         clsid = message[2:3]
         msgid = message[3:4]
         lenb = message[4:6]
+        leni = lenm - 8  # actual payload length (negative if message is truncated)
         if lenb == b"\x00\x00":
             payload = None
-            leni = 0
         else:
             payload = message[6 : lenm - 2]
-            leni = len(payload)
         ckm = message[lenm - 2 : lenm]
         if payload is not None:
             ckv = calc_checksum(clsid + msgid + lenb + payload)
@@ -409,7 +408,7 @@ class UBXReader:
                 raise UBXParseError(
                     (
                         f"Invalid payload length {lenb}"
-                        f" - should be {val2bytes(leni, U2)}"
+                        f" - should be {val2bytes(leni, U2) if 0 <= leni <= 65535 else leni}"
                     )
                 )
             if ckm != ckv:
